@@ -4,7 +4,7 @@
    (Model/Parser.v) to that very instance, without warnings. *)
 From Coq Require Import NArith ZArith List Bool Lia Arith Sorting.Permutation.
 From XV Require Import Base.Str Base.Eqb Base.PyInt Spec.XmlNs Model.Bind Model.EventGen Spec.Fits
-  Proofs.RoundtripBase Proofs.RoundtripGen Model.Parser.
+  Proofs.RoundtripBase Proofs.RoundtripGen Model.RoundtripCorr Model.Parser.
 Import ListNotations.
 Open Scope N_scope.
 
@@ -194,11 +194,6 @@ Section Texts.
       destruct l' as [|y2 l'']; reflexivity.
   Qed.
 End Texts.
-
-(* the default class factory finds a default for every field the document may omit
-   (C15, first refutation: a missing required argument is an uncaught TypeError) *)
-Definition nodefault_free (cfg : pconfig) : bool :=
-  forallb (fun e => match snd e with [] => true | _ => false end) (cf_nodefault cfg).
 
 Lemma nodefault_none cfg cl : nodefault_free cfg = true ->
   match assocN cl (cf_nodefault cfg) with Some l => l | None => [] end = [].
